@@ -384,6 +384,13 @@ def r3(ctx, rep):
         for n in walk(mm["pat"]):
             if n.get("k") == "p_path" and n["p"].startswith("pr::UnOp::"):
                 got.add(last_seg(n["p"]))
+    # the same test spelled as a `match` that returns bool
+    for mm in matches_of(cb["body"]):
+        for arm in mm["arms"]:
+            if show(arm["body"]) == "true":
+                for n in walk(arm["pat"]):
+                    if n.get("k") == "p_path" and n["p"].startswith("pr::UnOp::"):
+                        got.add(last_seg(n["p"]))
     unops = syn.adt("UnOp", crate="prqlc_parser")
     binop = syn.adt("BinOp", crate="prqlc_parser")
     def spell(adt):
